@@ -962,7 +962,7 @@ Proof.
   intros ->. simpl in *. apply negb_false_iff, Nat.eqb_eq in E2. exact E2.
 Qed.
 
-Lemma ev_read s a s' ev k : step timeout s a = Some (s', ev) -> In (ERead k true) ev ->
+Lemma ev_read s a s' ev k n : step timeout s a = Some (s', ev) -> In (ERead k true n) ev ->
   exists e en, nth_error (heap s) e = Some en /\ e_sock en = Some k /\ e_closes en = 0%nat.
 Proof.
   destruct a as [sid0 c| | | | | | |ok0|ok0| |e ok0|e|e ok0|t e|t|t| | | |d]; simpl; intros H I.
@@ -979,7 +979,7 @@ Proof.
   match goal with H : (_ =? 0)%nat = true |- _ => now apply Nat.eqb_eq in H end.
 Qed.
 
-Lemma ev_send s a s' ev k sid ok : step timeout s a = Some (s', ev) -> In (ESend k sid ok) ev ->
+Lemma ev_send s a s' ev k sid ok n : step timeout s a = Some (s', ev) -> In (ESend k sid ok n) ev ->
   exists e en, nth_error (heap s) e = Some en /\ e_sock en = Some k /\ e_sid en = sid.
 Proof.
   destruct a as [sid0 c| | | | | | |ok0|ok0| |e ok0|e|e ok0|t e|t|t| | | |d]; simpl; intros H I.
@@ -1023,10 +1023,10 @@ Proof.
 Qed.
 
 (* C07_isolation_back *)
-Lemma isolation_back s a s' ev k sid ok :
-  reachable s -> step timeout s a = Some (s', ev) -> In (ESend k sid ok) ev -> owner s k = Some sid.
+Lemma isolation_back s a s' ev k sid ok n :
+  reachable s -> step timeout s a = Some (s', ev) -> In (ESend k sid ok n) ev -> owner s k = Some sid.
 Proof.
-  intros R H I. destruct (ev_send _ _ _ _ _ _ _ H I) as (e & en & G & K & <-).
+  intros R H I. destruct (ev_send _ _ _ _ _ _ _ _ H I) as (e & en & G & K & <-).
   eapply owner_unique; eauto. now apply reachable_good.
 Qed.
 
@@ -1040,10 +1040,10 @@ Proof.
 Qed.
 
 Lemma no_io_after_close s a s' ev k : step timeout s a = Some (s', ev) ->
-  (exists sid, In (EWrite k sid true) ev) \/ In (ERead k true) ev ->
+  (exists sid, In (EWrite k sid true) ev) \/ (exists n, In (ERead k true n) ev) ->
   exists e en, nth_error (heap s) e = Some en /\ e_sock en = Some k /\ e_closes en = 0%nat.
 Proof.
-  intros H [[sid I]|I].
+  intros H [[sid I]|[n I]].
   - destruct (ev_write _ _ _ _ _ _ _ H I) as (e & en & _ & G & K & C). exists e, en. auto.
   - eapply ev_read; eauto.
 Qed.
@@ -1262,28 +1262,29 @@ Proof.
 Qed.
 End Final.
 
-(* non-vacuity: two sessions, one expires at the third sweep, its id is reused on a new socket,
-   the connection is lost; the run is accepted by the LTS and ends in a terminal state *)
+(* non-vacuity: two sessions, one expires at the third sweep (the other one is kept by an EMPTY datagram from the
+   remote, relayed with length 0), its id is reused on a new socket, the connection is lost; the run is accepted by
+   the LTS and ends in a terminal state *)
 Definition ex_acts : list action :=
   [ARecv 1 true; ALookup; AInsert; AFeed; ADial true; AWrite true;
    ARecv 2 true; ALookup; AInsert; AFeed; ADial true; AWrite true;
    AAdvance 1000; ATick;
-   ARead 1 true; AStamp 1; ASend 1 true;
+   ARead 1 true 0; AStamp 1; ASend 1 true;
    AAdvance 1000; ATick;
    AAdvance 1000; ATick;
    AClose1 TSW 0; ACloseLog TSW; ACloseDel TSW;
-   ARead 0 false; AClose1 (TRP 0) 0;
+   ARead 0 false 0; AClose1 (TRP 0) 0;
    ARecv 1 true; ALookup; AInsert; AFeed; ADial true; AWrite true;
    ARecvErr; ASnapAll;
    AClose1 TRL 2; ACloseLog TRL; ACloseDel TRL; AClose1 TRL 1; ACloseLog TRL; ACloseDel TRL;
-   AStop; ARead 1 false; AClose1 (TRP 1) 1; ARead 2 false; AClose1 (TRP 2) 2].
+   AStop; ARead 1 false 0; AClose1 (TRP 1) 1; ARead 2 false 0; AClose1 (TRP 2) 2].
 
 Lemma example_run :
   exists s tr, run 2000 init ex_acts = Some (s, tr) /\ terminal s = true /\ table s = [] /\
     length (heap s) = 3%nat /\ nsock s = 3 /\
     tr = [ERecv 1 true; EDial 1 (Some 0); EWrite 0 1 true; ERecv 2 true; EDial 2 (Some 1); EWrite 1 2 true;
-          EAdvance 1000; ERead 1 true; ESend 1 2 true; EAdvance 1000; EAdvance 1000;
-          EClose 0; ELogClose 1; ERead 0 false;
+          EAdvance 1000; ERead 1 true 0; ESend 1 2 true 0; EAdvance 1000; EAdvance 1000;
+          EClose 0; ELogClose 1; ERead 0 false 0;
           ERecv 1 true; EDial 1 (Some 2); EWrite 2 1 true; ERecvErr;
-          EClose 2; ELogClose 1; EClose 1; ELogClose 2; ERead 1 false; ERead 2 false].
+          EClose 2; ELogClose 1; EClose 1; ELogClose 2; ERead 1 false 0; ERead 2 false 0].
 Proof. eexists; eexists. vm_compute. repeat split. Qed.
